@@ -284,8 +284,12 @@ def check(pid, tier, seed):
                    "signatures; after every step exists() of every probe pattern, depth(), deliveries with received values and notify's return value are "
                    "compared with the TLC state / edge; distinct_nontrivial = distinct (stored keys, keys with subject) trees reached",
            "edge_cover": {"edges": tot_edges, "edges_replayed": tot_cov}, "model_checks": mcs, "graph_dumps": dumps}
+    extra_cov = None
+    if tier == "thorough":   # the neighbouring specification module that no property speaks about (SPEC-NOTEs only)
+        from lib import extrarun
+        extra_cov = {"spec_growth": extrarun.summary("keys", tier, seed)}
     rc = verdict.finish()
-    common.write_evidence(pid, tier, seed, "model_checking", cov, ASSUMPTIONS, time.time() - t0, len(verdict.violations))
+    common.write_evidence(pid, tier, seed, "model_checking", cov, ASSUMPTIONS, time.time() - t0, len(verdict.violations), extra=extra_cov)
     return rc
 
 
